@@ -9,7 +9,7 @@ PROP = dict(
         rule="genesis-roundtrip: case = one generated scenario (1-5 vaults on two extended pairs with a draw-down fee, optional close of the newest / a random vault, "
              "0-4 lockers with optional close, collector lookup + auction mapping, with or without the secondary asset registered as genesis token "
              "(case 0 forces every feature on; case 1 is the regression of the repaired C20-F1 / C20-F12: net fees collected, lockers, secondary asset NOT a genesis token), "
-             "liquidity pair/pool/orders/pending deposit/queued farmer, esm trigger params + kill switch, rewards whitelists, liquidation V1 begin-blocker sweep with batch size 2/3/200) "
+             "liquidity pairs/pool/orders/pending deposit/queued farmer, esm trigger params + kill switch, rewards whitelists + external rewards for stable-mint vaults + one stable-mint vault, liquidation V1 begin-blocker sweep with batch size 2/3/200) "
              "-> ExportGenesis of all 14 DeFi modules -> JSON -> InitGenesis into emptied module stores on a branch of the same chain -> per (module, prefix) dump comparison "
              "+ 15-30 fixed continuation steps + a random continuation on both branches (12 steps quick, 80 thorough: vault create/deposit/draw/repay/withdraw/close, "
              "locker create/deposit/withdraw/close, liquidity orders/deposits/withdrawals/cancels/end-blocker, asset registration, price moves, blocks, liquidation V1 sweeps, "
@@ -32,8 +32,8 @@ PROP = dict(
     )
 
 MANIFEST = dict(
-    level_text="Genesis coverage of all 14 DeFi modules decided by computation over a table regenerated from the Go source on every run (store prefixes and their writers, ExportGenesis field<-getter<-prefixes read, InitGenesis setter<-fields->prefixes written, counter restore shapes, error-guarded setters and whether their error depends on the item alone or on other state) and lifted by generic lemmas: every live prefix outside 11 listed known-finding classes (3-6, 8-11, 13-15) round-trips (init (export s) = s on it) and every id counter outside them is restored to its value; fresh-id lemma for max-restored counters. Each class has a refutation theorem. The table+model's per-prefix prediction is compared with the real ExportGenesis->JSON->InitGenesis of every module on generated states, and a fixed plus a random continuation workload (user messages, block hooks, price moves) is run on both chains, comparing result classes, assigned ids and balance changes step by step.",
+    level_text="Genesis coverage of all 14 DeFi modules decided by computation over a table regenerated from the Go source on every run (store prefixes and their writers, ExportGenesis field<-getter<-prefixes read, InitGenesis setter<-fields->prefixes written, counter restore shapes, error-guarded setters and whether their error depends on the item alone or on other state) and lifted by generic lemmas: every live prefix outside 12 listed known-finding classes (3-6, 8-11, 13-16) round-trips (init (export s) = s on it) and every id counter outside them is restored to its value; fresh-id lemma for max-restored counters. Each class has a refutation theorem. The table+model's per-prefix prediction is compared with the real ExportGenesis->JSON->InitGenesis of every module on generated states, and a fixed plus a random continuation workload (user messages, block hooks, price moves) is run on both chains, comparing result classes, assigned ids and balance changes step by step.",
     design_ref="DESIGN.md section 4 C20",
-    level_note="Partial: 11 known-finding classes. 8 are reproduced on the real code and listed (auctionsV2 bids/limit bids not exported, liquidation V1 locked-vault id = count, liquidationsV2 locked-vault id never restored, sweep offsets, locker id counter, vault id counter = max live id, auction V1 biddings/histories/last-auction ids, liquidation V1 histories): all need new GenesisState fields. 3 are read from the regenerated table only (vault StableMintVaultRewards, rewards/lend/esm/asset records and lend/rewards counters, esm kill-switch import guard): lend, rewards and esm deposits are not populated by the behavioural run. Four former classes are fixed with patches under fixes/ (C20-F1 net-fee export, C20-F2 auctionsV2 counters, C20-F7 auction V1 lend field, C20-F12 collector lookup import): their theorems are deleted, their witnesses are regression examples and forced harness cases. Not seen by the table: auction V1 ExportGenesis reads the lend dutch auctions of app id 3 only (GetDutchLendAuctions(ctx, 3)). Trusted: Coq kernel, the translator tools/goextract/emit_genesis.go, extraction, OCaml runner, Go harness. No axioms.",
+    level_note="Partial: 12 known-finding classes. 10 are reproduced on the real code and listed (auctionsV2 bids/limit bids not exported, liquidation V1 locked-vault id = count, liquidationsV2 locked-vault id never restored, sweep offsets, vault StableMintVaultRewards, locker id counter, vault id counter = max live id, auction V1 biddings/histories/last-auction ids, liquidation V1 histories, rewards stable-mint external rewards/epochs): all need new GenesisState fields. 2 are read from the regenerated table only (class 11: asset genesis-token-for-app, collector refund counter, esm snapshots, lend per-pool balances, liquidationsV2 reserve tx data, rewards locker/vault external-reward ids, plus the lend/rewards counters of class 10; class 13: esm kill-switch import guard): lend, external locker/vault rewards and esm deposits are not populated by the behavioural run. Four former classes are fixed with patches under fixes/ (C20-F1 net-fee export, C20-F2 auctionsV2 counters, C20-F7 auction V1 lend field, C20-F12 collector lookup import): their theorems are deleted, their witnesses are regression examples and forced harness cases. Not seen by the table: auction V1 ExportGenesis reads the lend dutch auctions of app id 3 only (GetDutchLendAuctions(ctx, 3)). Trusted: Coq kernel, the translator tools/goextract/emit_genesis.go, extraction, OCaml runner, Go harness. No axioms.",
     technique="Translator-regenerated table + Coq decision procedure proved sound against an export/init model (vm_compute + forallb_forall) + behavioural round-trip correspondence run",
 )
